@@ -1429,18 +1429,34 @@ def _handle_note(e, position, part, ongoing, prev_note, doc_order, prev_beam=Non
     ties = e.findall("tie")
     if len(ties) > 0:
         tie_key = ("tie", getattr(note, "midi_pitch", "rest"))
+        # a tie stop may precede its tie start in document order (when the
+        # first note belongs to a voice that is written after the voice of
+        # the second note); such a stop waits here for the start that ends
+        # where it begins
+        tie_stop_key = tie_key + ("stop",)
         tie_types = set(tie.attrib["type"] for tie in ties)
 
         if "stop" in tie_types:
             tie_prev = ongoing.get(tie_key, None)
 
-            if tie_prev:
+            if tie_prev is not None and tie_prev.end.t == position:
                 note.tie_prev = tie_prev
                 tie_prev.tie_next = note
                 del ongoing[tie_key]
 
+            else:
+                ongoing[tie_stop_key] = note
+
         if "start" in tie_types:
-            ongoing[tie_key] = note
+            tie_next = ongoing.get(tie_stop_key, None)
+
+            if tie_next is not None and tie_next.start.t == position + duration:
+                note.tie_next = tie_next
+                tie_next.tie_prev = note
+                del ongoing[tie_stop_key]
+
+            else:
+                ongoing[tie_key] = note
 
     notations = e.find("notations")
 
